@@ -62,6 +62,12 @@ type Ctx struct {
 
 var hashSeed = maphash.MakeSeed()
 
+// hangLimit: how long one case may run before it is reported as a hang.
+var hangLimit = 5 * time.Minute
+
+// memLimit: heap size beyond which a run is stopped and reported (cases allocate kilobytes).
+var memLimit uint64 = 24 << 30
+
 func hashBytes(b []byte) uint64  { return maphash.Bytes(hashSeed, b) }
 func hashString(s string) uint64 { return maphash.String(hashSeed, s) }
 
@@ -74,6 +80,8 @@ func (c *Ctx) Note(s string)   { c.mu.Lock(); c.notes = append(c.notes, s); c.mu
 
 // Worker carries per-goroutine counters, merged at the end of a section.
 type Worker struct {
+	curIdx   int64 // index being evaluated (watchdog)
+	curSince int64 // unix nanos
 	c        *Ctx
 	sec      *Section
 	evals    int64
@@ -145,6 +153,51 @@ func (c *Ctx) Section(name string, bounds map[string]interface{}, n int, fn func
 	var wg sync.WaitGroup
 	ws := make([]*Worker, nw)
 	var cut int32
+	// watchdog: a single case that runs for minutes is a hang inside the library (cases take microseconds)
+	wdDone := make(chan struct{})
+	defer close(wdDone)
+	go func() {
+		t := time.NewTicker(time.Second)
+		defer t.Stop()
+		for {
+			select {
+			case <-wdDone:
+				return
+			case <-t.C:
+				var ms runtime.MemStats
+				runtime.ReadMemStats(&ms)
+				if ms.HeapAlloc > memLimit {
+					var idxs []int64
+					for _, w := range ws {
+						if w != nil {
+							idxs = append(idxs, atomic.LoadInt64(&w.curIdx))
+						}
+					}
+					ws[0].Fail("memory-blowup", map[string]interface{}{"section_indexes_in_flight": idxs}, fmt.Sprintf("heap grew beyond %d GiB while evaluating cases %v of %s: the library does not terminate / allocates without bound on one of them", memLimit>>30, idxs, name))
+					sec.Exhaustive = false
+					c.mu.Lock()
+					c.sections = append(c.sections, sec)
+					c.mu.Unlock()
+					os.Exit(c.Finish(rules[c.Prop]))
+				}
+				for _, w := range ws {
+					if w == nil {
+						continue
+					}
+					since := atomic.LoadInt64(&w.curSince)
+					if since != 0 && time.Since(time.Unix(0, since)) > hangLimit {
+						idx := atomic.LoadInt64(&w.curIdx)
+						w.Fail("hang", map[string]interface{}{"section_index": idx}, fmt.Sprintf("case #%d of %s has been running for more than %v: the library does not terminate on it", idx, name, hangLimit))
+						sec.Exhaustive = false
+						c.mu.Lock()
+						c.sections = append(c.sections, sec)
+						c.mu.Unlock()
+						os.Exit(c.Finish(rules[c.Prop]))
+					}
+				}
+			}
+		}
+	}()
 	for k := 0; k < nw; k++ {
 		w := &Worker{c: c, sec: sec, distinct: map[uint64]struct{}{}, id: k, extra: map[string]int64{}, stop: &stop}
 		ws[k] = w
@@ -164,7 +217,10 @@ func (c *Ctx) Section(name string, bounds map[string]interface{}, n int, fn func
 					atomic.StoreInt32(&cut, 1)
 					return
 				}
+				atomic.StoreInt64(&w.curIdx, int64(i))
+				atomic.StoreInt64(&w.curSince, time.Now().UnixNano())
 				func() {
+					defer atomic.StoreInt64(&w.curSince, 0)
 					defer func() {
 						if r := recover(); r != nil {
 							st := string(debug.Stack())
